@@ -949,6 +949,13 @@ class Driver:
             if pred is None:
                 pred = Prediction(None, None)
                 pred.unpredicted = True
+        if fmt in ("json", "yaml", "xml") and len(doc) % 3 == 0:
+            # a third of the text documents are handed over as text instead of bytes
+            try:
+                doc = doc.decode()
+                self.res.count("documents_given_as_text")
+            except UnicodeDecodeError:
+                pass
         exc = self._run(lambda: self.cfg.loads(doc, fmt))
         return {"kind": "loads", "path": "", "raised": exc, "label": label, "pred": pred, "before": before,
                 "listed": bool(parse_fails), "parse_fails": parse_fails, "fmt": fmt}
@@ -1065,7 +1072,10 @@ class Driver:
     def _op_loads_raw(self, op):
         """Load a hand-written document (text given as it is, not produced by a codec)."""
         before = self.snapshot()
-        exc = self._run(lambda: self.cfg.loads(op["doc"].encode() if isinstance(op["doc"], str) else op["doc"], op["fmt"]))
+        doc = op["doc"]
+        if isinstance(doc, str) and len(doc) % 2:
+            doc = doc.encode()
+        exc = self._run(lambda: self.cfg.loads(doc, op["fmt"]))
         pred = Prediction(None, None)
         pred.unpredicted = True
         return {"kind": "loads-raw", "path": "", "raised": exc, "label": None, "pred": pred, "before": before, "listed": False}
